@@ -1505,6 +1505,7 @@ func (l *lexer) scanCmdSubst(r rune) bool {
 			done:     make(chan struct{}),
 			cancel:   make(chan struct{}),
 			heredoc:  heredoc{c: make(chan struct{}, 1)},
+			aliases:  l.aliases,
 			line:     l.line,
 			col:      l.col,
 		}
@@ -1516,6 +1517,7 @@ func (l *lexer) scanCmdSubst(r rune) bool {
 		yyParse(ll)
 		verifPoint(ll, EvNestedParseExit)
 		<-ll.done
+		l.aliases = ll.aliases
 		if ll.err != nil {
 			err := ll.err
 			if e, ok := err.(Error); ok && len(ll.stack) == 0 && r == '`' {
